@@ -219,8 +219,68 @@ fn run_input(ctx: &Ctx, input: &Value) -> Result<(), Fail> {
             };
             resolve(ctx.report, check_pair(ctx, &a, &b))
         }
-        _ => vcore::inconclusive("replay: input.kind must be \"field\" or \"pair\""),
+        Some("project") => {
+            let files = gen_project::cases::load_case_files(input);
+            match check_program_operations(&files, ctx.report) {
+                Ok((fails, _, _)) => resolve(ctx.report, fails),
+                Err(e) => vcore::inconclusive(&format!("replay: the program is not accepted any more ({e})")),
+            }
+        }
+        _ => vcore::inconclusive("replay: input.kind must be \"field\", \"pair\" or \"project\""),
     }
+}
+
+/// Project level: every operation of a compiled program (entrypoints, including the ones the
+/// compiler generates for @loadable fields, and refetch queries) — the aliases in the cooked
+/// operation text against the runtime's key for the matching normalization-AST node, and
+/// distinct keys for distinct (field, arguments) in every selection set.
+pub fn check_program_operations(files: &gen_project::Rendered, report: &Report) -> Result<(Vec<Fail>, crate::project::OperationKeyStats, usize), String> {
+    let compiled = crate::c10::compile_files(files)?;
+    let escape = files.files.iter().any(|(k, v)| k.starts_with("src/") && v.contains('\\'));
+    let mut fails = vec![];
+    let mut stats = crate::project::OperationKeyStats::default();
+    let mut operations: Vec<(String, String, Value)> = vec![];
+    for path in compiled.set.paths_named("entrypoint.ts") {
+        match crate::artifacts::entrypoint_case(&compiled.set, path) {
+            Err(_) => report.label("project:skipped-entrypoint(artifact-graph-not-linkable)"),
+            Ok(ep) => {
+                if let Some(text) = &ep.operation_text {
+                    operations.push((path.to_string(), text.clone(), ep.normalization.clone()));
+                }
+                for (i, q) in ep.nested_refetch_queries.as_array().into_iter().flatten().enumerate() {
+                    let info = &q["artifact"]["networkRequestInfo"];
+                    if let Some(text) = info["operation"]["text"].as_str() {
+                        operations.push((format!("{path}#refetch{i}"), text.to_string(), info["normalizationAst"]["selections"].clone()));
+                    }
+                }
+            }
+        }
+    }
+    let mut n_ops = 0;
+    for (path, text, normalization) in operations {
+        let doc = match refgql::parse_executable(&text) {
+            Ok(d) => d,
+            Err(_) => {
+                if text.contains("l_-") {
+                    // the operation is not even parsable: the recorded illegal-name root cause
+                    fails.push(Fail::new(gen12::SIG_NEG_INT, format!("{path}: the operation does not parse, it contains a response key with `-`:\n{text}")));
+                } else {
+                    // not valid GraphQL for another reason: C09's property
+                    report.label("project:skipped-operation(not-parsable,C09)");
+                }
+                continue;
+            }
+        };
+        let Some(op) = doc.definitions.iter().find_map(|d| match d {
+            refgql::Definition::Operation(o) => Some(o),
+            _ => None,
+        }) else {
+            continue;
+        };
+        n_ops += 1;
+        crate::c10::with_session(|s| crate::project::check_operation_keys(s, &op.selection_set, &normalization, &path, escape, &mut stats, &mut fails));
+    }
+    Ok((fails, stats, n_ops))
 }
 
 fn field_labels(f: &FieldSel) -> Vec<String> {
@@ -440,6 +500,50 @@ pub fn run(args: &Args) {
         }
         report.unfreeze();
     }
+
+    // ---- project level: the keys inside the operations of generated programs -------------------
+    vcore::set_max_shrink_iters(200);
+    let n_programs = args.tier.pick(300u32, 10_000u32);
+    let behind_escape = report.is_known(gen12::SIG_ESCAPE);
+    let res = vcore::run_prop_parallel(&report, "project", n_programs, vcore::num_workers(), crate::c10::c10_strategy, |s| {
+        // one program in five keeps the whole domain; otherwise the recorded escape-sequence root
+        // cause is excluded by construction (no strings with backslashes)
+        let exclude = behind_escape && vcore::hash_of(&s.spec.tape) % 5 != 0;
+        let ex = gen_project::cases::Exclusions { no_odd_strings: exclude, ..Default::default() };
+        if exclude && s.spec.variant % 5 == 3 {
+            report.excluded(gen12::SIG_ESCAPE);
+        }
+        let case = crate::c10::case_of(s, &ex);
+        match check_program_operations(&case.rendered, &report) {
+            Err(reason) => {
+                report.case::<str>(None, &[&format!("project:{reason}")]);
+                Ok(())
+            }
+            Ok((fails, stats, n_ops)) => {
+                let key = format!("{:?}", case.rendered.files);
+                let mut labels = vec![format!("project:tier:{}", case.tier), "phase:project(operations of compiled programs)".to_string()];
+                if let Some(m) = &stats.shape_mismatch {
+                    report.sample("project-shape-mismatch", 4, || json!({"mismatch": m}));
+                    labels.push("project:operation-and-normalization-ast-differ-in-shape(C11)".into());
+                }
+                let l: Vec<&str> = labels.iter().map(|x| x.as_str()).collect();
+                report.case(if stats.fields_with_arguments > 0 { Some(key.as_str()) } else { None }, &l);
+                report.label_n("project:operations-checked", n_ops as u64);
+                report.label_n("project:selection-sets-checked", stats.selection_sets as u64);
+                report.label_n("project:fields-compared-with-runtime-key", stats.fields as u64);
+                report.label_n("project:fields-with-arguments", stats.fields_with_arguments as u64);
+                report.sample("project", 1, || json!({"kind": "project", "files": case.rendered.files}));
+                resolve(&report, fails)
+            }
+        }
+    });
+    if let Some((s, fail)) = res {
+        let exclude = behind_escape && vcore::hash_of(&s.spec.tape) % 5 != 0;
+        let ex = gen_project::cases::Exclusions { no_odd_strings: exclude, ..Default::default() };
+        let case = crate::c10::case_of(&s, &ex);
+        report.violation("project", &fail, json!({"kind": "project", "files": case.rendered.files}));
+    }
+    report.unfreeze();
 
     let gp = guard_problems.lock().unwrap().clone();
     if !gp.is_empty() && report.violation_count() == 0 {
